@@ -23,7 +23,7 @@ RULE = (
     "parameters in {0,1}, A & B equals both flags False. Non-trivial: >= 2 crossings, or overlapping boxes "
     "without crossing, or an identical segment."
 )
-MANDATORY = ["tiny-rational", "crossings>=2", "boxes-overlap-no-crossing", "identical-segment", "curved", "polygon-exact", "flags"]
+MANDATORY = ["after-in-place-transform", "tiny-rational", "crossings>=2", "boxes-overlap-no-crossing", "identical-segment", "curved", "polygon-exact", "flags"]
 CONSTANTS = {"min_sin_theta": 0.2, "param_tol_curved": 1e-4, "point_tol": 1e-6}
 
 
@@ -73,6 +73,11 @@ def _expected(ca, cb):
 def judge(ctx, case):
     Sp = lib.sp()
     ca, cb = lib.tup(case["a"]), lib.tup(case["b"])
+    tf = case.get("tf")
+    if tf:
+        from .c09 import model_step
+
+        ca = model_step([ca], tf)[0]
     polygon = rg.curve_is_polygon(ca) and rg.curve_is_polygon(cb)
     exact = polygon and rg.curve_is_exact(ca) and rg.curve_is_exact(cb)
     if not polygon and ctx.known_class(case, KNOWN_CLASSES):
@@ -105,12 +110,25 @@ def judge(ctx, case):
     strata.append("config:" + case.get("config", "?"))
     if case.get("config", "").endswith("-tiny"):
         strata.append("tiny-rational")
+    if tf:
+        strata.append("after-in-place-transform")
     ctx.evaluated(case, ncross >= 2 or boxes_overlap_no_cross or bool(ident), strata)
     where = "polygon" if polygon else "curved"
     try:
         with call_limit(300):
-            JA = lib.jordan_from_curve(ca)
-            JB = lib.jordan_from_curve(cb)
+            if tf:
+                # the same objects were intersected before A was transformed in
+                # place (the model `ca` is already the transformed curve)
+                from .c09 import apply_step
+
+                JA = lib.jordan_from_curve(lib.tup(case["a"]))
+                JB = lib.jordan_from_curve(cb)
+                JA.intersection(JB)
+                JB.intersection(JA)
+                apply_step(JA, tf)
+            else:
+                JA = lib.jordan_from_curve(ca)
+                JB = lib.jordan_from_curve(cb)
             full = JA.intersection(JB)
             swapped = JB.intersection(JA)
             both_off = JA.intersection(JB, equal_beziers=False, end_points=False)
@@ -279,6 +297,15 @@ def pair_cases(draw, curved):
             off = (float(round(off[0])), float(round(off[1])))
         b = draw(S.star_curve(nk, off, rb[0], rb[1], (3, 7), deg, draw(st.booleans())))
     out = {"a": a, "b": b, "config": config}
+    if draw(st.integers(0, 3)) == 0 and config in ("cross", "nested", "apart"):
+        tfk = draw(st.sampled_from(["move", "scale", "rotate"]))
+        if tfk == "move":
+            out["tf"] = {"k": "move", "v": [draw(st.integers(-3, 3)), draw(st.integers(-3, 3))], "form": 0}
+        elif tfk == "scale":
+            out["tf"] = {"k": "scale", "s": [draw(st.sampled_from([2, F(1, 2), 1])), draw(st.sampled_from([2, F(3, 2), 1]))]}
+        else:
+            out["tf"] = {"k": "rotate", "a": draw(st.sampled_from([90, 180, 270, 30])), "deg": True}
+        return out
     if not curved and nk in ("int", "frac") and draw(st.integers(0, 3)) == 0:
         # the same exact drawing in millimetres: edges of ~1e-3 units
         f = F(1, 400 * int(R))
